@@ -425,6 +425,10 @@ def canon_attr(base, name):
 _ARRAY_METHODS = {"sum", "prod", "max", "min", "mean", "std", "var", "all", "any", "cumsum", "cumprod", "argmax", "argmin", "argsort", "ravel", "nonzero"}
 
 
+_UNARY_PURE = {"numpy.exp", "numpy.log", "numpy.sqrt", "numpy.log10", "numpy.log1p", "numpy.expm1", "numpy.reciprocal", "numpy.abs", "numpy.square",
+               "math.exp", "math.log", "math.sqrt", "numpy.asarray", "numpy.array", "float"}
+
+
 def _boolish(t):
     """a term whose value is a truth value / boolean array whatever its operands are"""
     if t[0] in ("cmp", "not", "isnone", "and", "or"):
@@ -481,6 +485,10 @@ def canon_call(func, args, kws):
 
     if func[0] == "global" and func[1] in _CMP_FUNCS and len(args) == 2 and not kws:
         return CMP(_CMP_FUNCS[func[1]], args[0], args[1])
+    # f(a if c else b) is f(a) if c else f(b) for a one-argument numerical function
+    if func[0] == "global" and func[1] in _UNARY_PURE and len(args) == 1 and not kws and args[0][0] == "ifexp":
+        a_ = args[0]
+        return ("ifexp", a_[1], canon_call(func, (a_[2],), ()), canon_call(func, (a_[3],), ()))
     # np.logical_and(a, b), np.logical_and.reduce([a, b, c]), functools.reduce(np.logical_and, (a, b, c)) of truth-valued
     # operands are a & b & c (same for or / |)
     for fname, op in (("numpy.logical_and", "&"), ("numpy.logical_or", "|")):
@@ -1001,7 +1009,13 @@ class TermBuilder:
         if isinstance(e, ast.Call):
             return self.call(e, at, env)
         if isinstance(e, ast.BinOp):
-            return ("bin", _BINOP[type(e.op)], T(e.left), T(e.right))
+            l_, r_, op_ = T(e.left), T(e.right), _BINOP[type(e.op)]
+            # 1 / (a if c else b) is (1 / a) if c else (1 / b): a choice is lifted out of an arithmetic operation with a constant
+            if r_[0] == "ifexp" and l_[0] == "const":
+                return ("ifexp", r_[1], ("bin", op_, l_, r_[2]), ("bin", op_, l_, r_[3]))
+            if l_[0] == "ifexp" and r_[0] == "const":
+                return ("ifexp", l_[1], ("bin", op_, l_[2], r_), ("bin", op_, l_[3], r_))
+            return ("bin", op_, l_, r_)
         if isinstance(e, ast.UnaryOp):
             o = T(e.operand)
             if isinstance(e.op, ast.USub):
@@ -1237,7 +1251,8 @@ class TermBuilder:
                 args.append(kw.pop(formals[len(args)]))
             if len(args) != len(t[2]) and not any(f in kw for f in formals[:len(args)]):
                 t = ("call", t[1], tuple(args), tuple(sorted(kw.items(), key=lambda kv: kv[0])))
-        if not self.inline and not (callee is not None and _free_helper(callee)):
+        applied_lambda = callee is not None and isinstance(callee.node, ast.Lambda) and t[1][0] == "func" and callee.parent is self.fn
+        if not self.inline and not (callee is not None and _free_helper(callee)) and not applied_lambda:
             # a non-inlining builder still looks through small private helpers that no rule names (see vstat/inliner.py)
             return t
         if callee is not None:
